@@ -3,6 +3,7 @@ import GdcVerif.Model.Dct
 import GdcVerif.Model.JpegAddr
 import GdcVerif.Model.J2kQuant
 import GdcVerif.Model.JpegAc
+import GdcVerif.Model.JpegScan
 /-! Driver ops of the lossy codecs work package (C11, C15, C12). -/
 namespace Drv.Dct
 open Drv
@@ -108,6 +109,52 @@ def step? : List String → Option String
     | none => "bad-op"
   | ["jpg-dri", a, b] => some <| match ints? [a, b] with
     | some [a, b] => s!"ok {Gen.JpegBaseline.parseDRI.restartInt a b}"
+    | _ => "bad-op"
+  | ["jpg-rgbimage", w, h, q, hx] => some <| match nats? [w, h, q] with
+    | some [w, h, q] =>
+      let px := (bytesI hx).toArray
+      if px.size != w * h * 3 then "bad-op" else
+      let img : Dct.Rgb := fun y x => ((px[(y * w + x) * 3]?).getD 0, (px[(y * w + x) * 3 + 1]?).getD 0, (px[(y * w + x) * 3 + 2]?).getD 0)
+      let qY := Dct.tableF (Dct.scaleQuantTable Gen.JpegStd.DefaultLuminanceQuantTable q)
+      let qC := Dct.tableF (Dct.scaleQuantTable Gen.JpegStd.DefaultChrominanceQuantTable q)
+      okBytes ((List.range h).flatMap fun y => (List.range w).flatMap fun x =>
+        let o := Dct.decodedRgb img w h qY qC x y
+        [o.1, o.2.1, o.2.2])
+    | _ => "bad-op"
+  | ["jpg-greyimage", w, h, q, hx] => some <| match nats? [w, h, q] with
+    | some [w, h, q] =>
+      let px := (bytesI hx).toArray
+      if px.size != w * h then "bad-op" else
+      let img : Dct.Blk := fun y x => (px[y * w + x]?).getD 0
+      let qY := Dct.tableF (Dct.scaleQuantTable Gen.JpegStd.DefaultLuminanceQuantTable q)
+      okBytes ((List.range h).flatMap fun y => (List.range w).map fun x => Dct.decodedPixel img w h qY x y)
+    | _ => "bad-op"
+  | ["jpg-scan-enc", comps, w, h, q, hx] => some <| match nats? [comps, w, h, q] with
+    | some [comps, w, h, q] =>
+      let px := (bytesI hx).toArray
+      if px.size != w * h * comps then "bad-op" else
+      let qY := Dct.tableF (Dct.scaleQuantTable Gen.JpegStd.DefaultLuminanceQuantTable q)
+      let qC := Dct.tableF (Dct.scaleQuantTable Gen.JpegStd.DefaultChrominanceQuantTable q)
+      let planes : List (Dct.Blk × Dct.Blk) :=
+        if comps == 1 then
+          let img : Dct.Blk := fun y x => (px[y * w + x]?).getD 0
+          [(fun row col => img (Dct.edgeIdx 0 row h).toNat (Dct.edgeIdx 0 col w).toNat, qY)]
+        else
+          let img : Dct.Rgb := fun y x => ((px[(y * w + x) * 3]?).getD 0, (px[(y * w + x) * 3 + 1]?).getD 0, (px[(y * w + x) * 3 + 2]?).getD 0)
+          [(Dct.planeOf img w h 0, qY), (Dct.planeOf img w h 1, qC), (Dct.planeOf img w h 2, qC)]
+      let bw := (w + 7) / 8
+      let bh := (h + 7) / 8
+      let zz : Dct.Blk → List Int := fun qc => (List.range 64).map fun (k : Nat) =>
+        match Dct.getI Gen.JpegStd.ZigZag (k : Int) with
+        | some z => qc (z.toNat / 8) (z.toNat % 8)
+        | none => 0
+      let blocks : List (Nat × JpegScan.Block) := (List.range (bw * bh)).flatMap fun b =>
+        planes.zipIdx.map fun (pq, ci) =>
+          let z := zz (Dct.quantF (Dct.fdctF (Dct.blockOfPlane pq.1 (b % bw) (b / bw))) pq.2)
+          (ci, (z.headD 0, z.tail))
+      let syms := JpegScan.encBlocks (fun _ => 0) blocks
+      "ok " ++ " ".intercalate (syms.map fun s =>
+        " ".intercalate (s!"D{s.1.1}:{s.1.2}" :: s.2.map fun a => s!"A{a.1}:{a.2}"))
     | _ => "bad-op"
   | ["jpg-detect", hx] => some s!"ok {Dct.detectBitDepth (hexToBytes hx)}"
   | ["jpg-rstfilter-tie"] => some "ok true"
